@@ -41,8 +41,9 @@ class cached_property():
 def calc_vn_entropy(p: Union[np.ndarray, List[float]]) -> float:
     # calculate Von Neumann entropy from density matrix eigenvalues (not singular values!)
     p = np.array(p)
-    assert np.allclose(p[p<0], 0)
+    # normalise first: the sign test below is absolute and must not depend on the norm of the state
     p = p / p.sum()
+    assert np.allclose(p[p<0], 0)
     assert np.allclose(p.sum(), 1)
     p = p[0 < p]
     return - (p* np.log(p)).sum()
